@@ -596,10 +596,14 @@ class FromArray(PartitionsFiltered, BlockwiseIO):
     _absorb_projections = True
 
     @functools.cached_property
-    def _meta(self):
-        meta = _meta_from_array(
+    def _unprojected_meta(self):
+        return _meta_from_array(
             self.frame, self.operand("original_columns"), self.operand("meta")
         )
+
+    @functools.cached_property
+    def _meta(self):
+        meta = self._unprojected_meta
         if self.operand("columns") is not None:
             return meta[self.operand("columns")]
         return meta
@@ -607,9 +611,12 @@ class FromArray(PartitionsFiltered, BlockwiseIO):
     @functools.cached_property
     def original_columns(self):
         if self.operand("original_columns") is None:
-            if is_series_like(self._meta):
+            # the default labels of all columns of the array, also when a
+            # projection was absorbed
+            meta = self._unprojected_meta
+            if is_series_like(meta):
                 return [0]
-            return list(range(len(self._meta.columns)))
+            return list(range(len(meta.columns)))
         return self.operand("original_columns")
 
     @functools.cached_property
